@@ -1739,7 +1739,14 @@ class Engine(ExprEval, NumpyModel, NumpyFuncs):
         st.old_env, st.old_heap, saved_old = old_env, old_heap, (st.old_env, st.old_heap)
         try:
             for name, e in c.ensures.items():
-                st.assume(self.truth(st, self.eval_in(st, e, post)))
+                try:
+                    fact = self.truth(st, self.eval_in(st, e, post))
+                except Unsupported as ex:
+                    # the clause talks about state the callee leaves in a form the caller's model cannot hold (a field declared `any` in modifies):
+                    # the caller simply does not learn this clause -- dropping a hypothesis is sound
+                    self.note_assumption(f"callee post {c.ident}#{name} not available at this call site ({str(ex)[:80]})")
+                    continue
+                st.assume(fact)
             for u in c.post_uses:
                 self.eval_in(st, u, post)
         finally:
